@@ -209,12 +209,109 @@ def compare(kind, got, want, fails):
                          % (i, j, [x['material'] for x in a['shapes']], b['material']))
 
 
+def construct(lib, case):
+    """The same scene built through the public constructors on top of the loaded libraries, in varying Python
+    forms: default arguments with children / transforms / material bindings appended in place afterwards,
+    explicit lists, None; several instances of one geometry; instance_node as NodeNode(node)."""
+    import collada
+    from collada import scene
+    empty = dict(case, roots=[], libnodes=[], liborder=[])
+    doc = collada.Collada(io.BytesIO(c12docs.render_document(lib, empty)))
+    table = c12docs.resolve(case)
+    shared = {}
+    counter = [case.get('form', 0)]
+
+    def form(n):
+        counter[0] = (counter[0] * 7 + 3) % 1009
+        return counter[0] % n
+
+    def transform(t):
+        if t[0] == 'matrix':
+            return scene.MatrixTransform(numpy.array(t[1], dtype=numpy.float32 if form(2) else numpy.float64))
+        if t[0] == 'translate':
+            return scene.TranslateTransform(t[1], t[2], t[3])
+        return scene.ScaleTransform(t[1], t[2], t[3])
+
+    def matnodes(binds):
+        return [scene.MaterialNode(sym, doc.materials.get(m), inputs=[]) for sym, m in binds]
+
+    def get_shared(i):
+        if i not in shared:
+            shared[i] = build(table[i])
+        return shared[i]
+
+    def build(n):
+        t = n['t']
+        if t == 'node':
+            kids = [build(c) for c in n['children'] if c['t'] != 'broken']
+            trs = [transform(x) for x in n['transforms']]
+            f = form(4)
+            if f == 0:
+                return scene.Node(n['id'], children=kids, transforms=trs)
+            if f == 1:
+                nd = scene.Node(n['id'], transforms=trs)          # default children, filled in place
+                for k in kids:
+                    nd.children.append(k)
+                return nd
+            if f == 2:
+                nd = scene.Node(n['id'], children=kids)           # default transforms, filled in place
+                nd.transforms.extend(trs)
+                return nd
+            nd = scene.Node(n['id'])
+            nd.children += kids
+            for x in trs:
+                nd.transforms.append(x)
+            return nd
+        if t == 'inst':
+            return scene.NodeNode(get_shared(n['ref']))
+        if t == 'geom':
+            g = doc.geometries.get(n['ref'])
+            f = form(4)
+            if f == 0:
+                return scene.GeometryNode(g, matnodes(n['binds']))
+            if f == 1:
+                gn = scene.GeometryNode(g)                          # default materials, bound in place afterwards
+                for m in matnodes(n['binds']):
+                    gn.materials.append(m)
+                return gn
+            if f == 2:
+                gn = scene.GeometryNode(g, None)
+                gn.materials.extend(matnodes(n['binds']))
+                return gn
+            gn = scene.GeometryNode(g, materials=[])
+            gn.materials += matnodes(n['binds'])
+            return gn
+        if t == 'ctrl':
+            c = doc.controllers.get(n['ref'])
+            if form(2):
+                return scene.ControllerNode(c, matnodes(n['binds']))
+            cn = scene.ControllerNode(c, [])
+            for m in matnodes(n['binds']):
+                cn.materials.append(m)
+            return cn
+        if t == 'light':
+            return scene.LightNode(doc.lights.get(n['ref']))
+        if t == 'cam':
+            return scene.CameraNode(doc.cameras.get(n['ref']))
+        return scene.ExtraNode(None)
+    for n in case['libnodes']:
+        doc.nodes.append(get_shared(n['id']))
+    roots = [get_shared(r['id']) for r in case['roots']]
+    sc = scene.Scene('built', roots)
+    doc.scenes.append(sc)
+    doc.scene = sc
+    doc.save()            # node matrices of nodes whose transforms were filled in place are computed by save()
+    return doc
+
+
 def run_case(lib, case):
     import collada
     A = c12docs.atoms(lib)
     fails = []
     data = c12docs.render_document(lib, case)
-    if case.get('ignore'):
+    if case.get('build') == 'construct':
+        doc = construct(lib, case)
+    elif case.get('ignore'):
         # some instances refer to nothing: loaded with errors ignored they are dropped, the rest is unaffected
         doc = collada.Collada(io.BytesIO(data), ignore=[collada.common.DaeError])
     else:
